@@ -1984,7 +1984,7 @@ func (r *Raft) installSnapshot(rpc RPC, req *InstallSnapshotRequest) {
 	// too far). Installing it would move the FSM, the last snapshot and the
 	// configuration backwards, so acknowledge it instead: we do hold everything
 	// it covers, and the leader resumes with AppendEntries right after it.
-	if req.LastLogIndex <= r.getLastApplied() {
+	if req.LastLogIndex <= r.getLastApplied() && r.holdsEntry(req.LastLogIndex, req.LastLogTerm) {
 		r.logger.Info("ignoring installSnapshot request that is not newer than the applied state",
 			"snapshot-index", req.LastLogIndex, "last-applied", r.getLastApplied())
 		resp.Success = true
@@ -2080,6 +2080,28 @@ func (r *Raft) installSnapshot(rpc RPC, req *InstallSnapshotRequest) {
 	r.logger.Info("Installed remote snapshot")
 	resp.Success = true
 	r.setLastContact()
+}
+
+// holdsEntry reports whether what we hold at index can be the entry with the
+// given term: the one our last snapshot ends at or a log entry has to have that
+// term, anything further down is covered by our snapshot and cannot be looked
+// up any more. A snapshot whose last entry differs from ours at the same index
+// belongs to another history (for instance after a user restore that did not
+// complete) and has to be installed even if it does not reach past what we
+// have applied.
+func (r *Raft) holdsEntry(index, term uint64) bool {
+	snapIdx, snapTerm := r.getLastSnapshot()
+	if index == snapIdx {
+		return term == snapTerm
+	}
+	if index < snapIdx {
+		return true
+	}
+	var l Log
+	if err := r.logs.GetLog(index, &l); err != nil {
+		return true
+	}
+	return l.Term == term
 }
 
 // setLastContact is used to set the last contact time to now
